@@ -355,6 +355,8 @@ for _k, _v in {
     "C09": "local getters never read a Union[OdxLinkRef, ...] raw field without resolving it",
     "C10": "dominating branch conditions of every resolve call are independent of sibling "
            "reference fields",
+    "C11": "nested complex values: element names the recursive writer macro can emit (Jinja "
+           "AST, call-site literals) are within those the recursive parser descends into",
     "C14": "one constant byte order in the BIT-MASK helpers of the shared decoder",
     "C15": "the sub-value index ranges over the unfiltered subparams attribute",
     "C18": "decision table of the composite static bit length shared with C08",
